@@ -708,3 +708,89 @@ impl Watchdog {
         s.1.clear();
     }
 }
+
+// ------------------------------------------------------------------------------------------
+// In-memory LogStore (no SQLite worker threads: every store future is immediately ready, so a
+// paused current-thread runtime sees exactly the channel interactions of the sessions).
+// Same observable semantics as the SQLite queries: heights `None` when no row, size always
+// `Some`, entries `None` when empty, ascending by seq.
+// ------------------------------------------------------------------------------------------
+
+#[derive(Clone, Default)]
+pub struct MemStore {
+    pub rows: Arc<Mutex<BTreeMap<(VerifyingKey, L), BTreeMap<SeqNum, (Op, Vec<u8>, usize)>>>>,
+}
+
+impl MemStore {
+    pub fn insert(&self, op: &OpData) {
+        self.rows
+            .lock()
+            .unwrap()
+            .entry((op.header.verifying_key, op.l))
+            .or_default()
+            .insert(op.s, (op.operation(), op.header_bytes.clone(), op.bytes));
+    }
+}
+
+#[derive(Debug, thiserror::Error)]
+#[error("mem store error")]
+pub struct MemStoreError;
+
+impl LogStore<Op, VerifyingKey, L, SeqNum, Hash> for MemStore {
+    type Error = MemStoreError;
+
+    async fn get_latest_entry(&self, author: &VerifyingKey, log_id: &L) -> Result<Option<Op>, Self::Error> {
+        Ok(self.rows.lock().unwrap().get(&(*author, *log_id)).and_then(|m| m.values().next_back().map(|v| v.0.clone())))
+    }
+    async fn get_latest_entry_tx(&self, author: &VerifyingKey, log_id: &L) -> Result<Option<Op>, Self::Error> {
+        self.get_latest_entry(author, log_id).await
+    }
+    async fn get_log_heights(&self, author: &VerifyingKey, logs: &[L]) -> Result<Option<BTreeMap<L, SeqNum>>, Self::Error> {
+        let rows = self.rows.lock().unwrap();
+        let mut out = BTreeMap::new();
+        for l in logs {
+            if let Some(m) = rows.get(&(*author, *l)) {
+                if let Some(s) = m.keys().next_back() {
+                    out.insert(*l, *s);
+                }
+            }
+        }
+        Ok(if out.is_empty() { None } else { Some(out) })
+    }
+    async fn get_log_size(&self, author: &VerifyingKey, log_id: &L, after: Option<SeqNum>, until: Option<SeqNum>) -> Result<Option<(u32, u32)>, Self::Error> {
+        let rows = self.rows.lock().unwrap();
+        let mut n = 0u32;
+        let mut b = 0u32;
+        if let Some(m) = rows.get(&(*author, *log_id)) {
+            for (s, v) in m {
+                if after.map(|a| *s > a).unwrap_or(true) && until.map(|u| *s <= u).unwrap_or(true) {
+                    n += 1;
+                    b += v.2 as u32;
+                }
+            }
+        }
+        Ok(Some((n, b)))
+    }
+    async fn get_log_entries(&self, author: &VerifyingKey, log_id: &L, after: Option<SeqNum>, until: Option<SeqNum>) -> Result<Option<Vec<(Op, Vec<u8>)>>, Self::Error> {
+        let rows = self.rows.lock().unwrap();
+        let mut out = vec![];
+        if let Some(m) = rows.get(&(*author, *log_id)) {
+            for (s, v) in m {
+                if after.map(|a| *s > a).unwrap_or(true) && until.map(|u| *s <= u).unwrap_or(true) {
+                    out.push((v.0.clone(), v.1.clone()));
+                }
+            }
+        }
+        Ok(if out.is_empty() { None } else { Some(out) })
+    }
+    async fn prune_entries(&self, author: &VerifyingKey, log_id: &L, until: &SeqNum) -> Result<u64, Self::Error> {
+        let mut rows = self.rows.lock().unwrap();
+        let mut n = 0;
+        if let Some(m) = rows.get_mut(&(*author, *log_id)) {
+            let before = m.len();
+            m.retain(|s, _| s >= until);
+            n = (before - m.len()) as u64;
+        }
+        Ok(n)
+    }
+}
